@@ -21,7 +21,7 @@ RULE = ("Route tables of 1-4 routes built from segment templates (literals 'a','
         "Router.__call__ on WSGI and on ASGI; one Router object per table serves all its paths, in one order and then reversed, with empty and non-empty root paths "
         "(including a root path equal to the first path segment). Non-trivial = pair where >=2 routes are in the table and the path matches or nearly matches a "
         "typed route; distinct = (table, path).")
-RULE += " Also: 2-5 requests in flight together on one router whose endpoints read their parameters late (generator bodies, endpoints that give way first); non-NFC text, 40% of the tables name every route's placeholders differently and half of those end in a catch-all route (left-over bindings of a failed route become visible). Dispatch under GET / POST / OPTIONS / HEAD / DELETE / CONNECT (also on the empty path); 36-character uuid near misses with the hyphens elsewhere. The values . and .. and values of 2100 / 2600 characters."
+RULE += " Also: 2-5 requests in flight together on one router whose endpoints read their parameters late (generator bodies, endpoints that give way first); non-NFC text, 40% of the tables name every route's placeholders differently and half of those end in a catch-all route (left-over bindings of a failed route become visible). Dispatch under GET / POST / OPTIONS / HEAD / DELETE / CONNECT (also on the empty path); 36-character uuid near misses with the hyphens elsewhere. The values . and .. for str placeholders; five fixed paths of 2100 - 3000 characters."
 ASSUMPTIONS = [
     "when a path binds to a route in more than one way (e.g. '{x}-{y:int}') only route choice is compared, not parameter values",
     "on WSGI PATH_INFO is the Latin-1 view of the path bytes; the model is applied to the UTF-8 text those bytes stand for (as on ASGI)",
@@ -32,13 +32,13 @@ U = "90478484-0988-45fc-91fe-757d90136892"
 SEG_TEMPLATES = ["cafe\u0301", "Ã©", "a", "a.b", "v1+", "a(b)", "[a]", "{N}", "{N:str}", "{N:int}", "{N:decimal}", "{N:uuid}", "{N:date}", "{N:any}",
                  "{N}-{M:int}", "p{N:int}s", "{N:str}.json", "{N:decimal}x", "id-{N:uuid}", "{N:date}T", "a|b", "a$", "^a", "a*"]
 VALID = {
-    "str": ["alice;v=2", ";semi", ".", "..", "x" * 2100, "x", "a.b", "é", "12", "a b", "x\ny", "%41", " ", "e\u0301", "\u1100\u1161", "caf\u00e9",
+    "str": ["alice;v=2", ";semi", ".", "..", "x", "a.b", "é", "12", "a b", "x\ny", "%41", " ", "e\u0301", "\u1100\u1161", "caf\u00e9",
             "Ã©", "cafÃ©", "â\x82¬", "Â", "a\x00b", "\x00", "\x7f\x1b"],  # text whose characters, read as Latin-1 bytes, would form UTF-8: it is text already, nothing is to be decoded again
     "int": ["0", "12", "007", "1" * 40, "1" * 400],
     "decimal": ["0", "100", "1.5", "10.50", "0.0", "000", "1.000", "100.0", "12345678901234567890.123"],
     "uuid": [U, "00000000-0000-0000-0000-000000000000"],
     "date": ["2021-03-07", "0001-01-01", "9999-12-31", "2024-02-29"],
-    "any": ["", "x", "seg/" * 520 + "end", "a/b/c", "a\nb", "/", "\n", "nul\x00/in/it"],
+    "any": ["", "x", "a/b/c", "a\nb", "/", "\n", "nul\x00/in/it"],
 }
 NEAR = {
     "str": ["", "a/b"],
@@ -286,6 +286,9 @@ REGRESSION = [
     (["/{p0:int}"], "/12\n"), (["/{p0:int}", "/{p0:any}"], "/١٢"), (["/a", "/{p0}"], "/a"), (["/{p0}", "/a"], "/a"),
     (["/{start:date}/{end:date}", "/{a}/{b}"], "/2021-01-01/2021-02-30"), (["/{n:int}/{d:date}/x", "/{rest:any}"], "/7/2023-02-29/x"),
     (["/{p0}-{q0:int}"], "/x-y-3"), (["/{p0:uuid}"], "/" + U.upper()), (["/a(b)"], "/a(b)"), (["/a|b"], "/a"), (["/a$"], "/a"),
+    # very long paths (a fixed handful: matching them is slow) - a route matches whatever the length of the text
+    (["/u/{name}"], "/u/" + "x" * 2100), (["/f/{p:any}"], "/f/" + "seg/" * 520 + "end"), (["/{a}/{n:int}", "/{rest:any}"], "/" + "y" * 2100 + "/7"),
+    (["/static/{p:any}", "/{rest:any}"], "/static/" + "d/" * 1500 + "file.txt"), (["/n/{n:int}"], "/n/" + "9" * 2100),
 ]
 
 
